@@ -4,11 +4,13 @@
      cast_to_integer_or_char                 src/c/_cffi_backend.c:4032
      _my_PyObject_AsBool                                           :3967
      _my_PyLong_AsUnsignedLongLong(ob, 0) (masking; floats via nb_int = truncation)  :869
-     write_raw_integer_data                                        :970   (shared with C03)
+     write_raw_integer_data                                        :970   (C03/Mem.v)
      cdata_int (what int() of the result returns)                  :2308
      do_cast, pointer branch                                       :4128
-   Sources: Python int (bool = 0/1), finite float m*2^e, 1-byte bytes, one-character str,
-   pointer/array/function cdata (its address).  x86-64: ffi_arg/pointers 64 bit, little endian. *)
+   Sources the property lists: Python int (bool = 0/1), finite float m*2^e, 1-byte bytes,
+   one-character str, pointer/array/function cdata (its address).  The other outcomes of the real
+   code are explicit as well: infinities/NaN, bytes/str of another length, objects without
+   nb_int/nb_float raise; nothing is totalised away.  x86-64, little endian. *)
 From Coq Require Import ZArith List Bool.
 From Cffi Require Import C03.Mem.
 Import ListNotations.
@@ -17,9 +19,20 @@ Open Scope Z_scope.
 Inductive src :=
 | SInt (v : Z)
 | SFloat (m e : Z)            (* finite: m * 2^e *)
-| SBytes (b : Z)              (* 0..255 *)
-| SStr (cp : Z)               (* code point 0..0x10FFFF *)
-| SPtr (addr : Z).            (* 0 <= addr < 2^64 *)
+| SBytes (b : Z)              (* bytes of length 1; 0..255 *)
+| SStr (cp : Z)               (* str of length 1; code point 0..0x10FFFF *)
+| SPtr (addr : Z)             (* pointer/array/function cdata; 0 <= addr < 2^64 *)
+(* not listed by the property *)
+| SFloatInf                   (* +-inf *)
+| SFloatNan
+| SBytesLen (n : Z)           (* bytes of length n <> 1 *)
+| SStrLen (n : Z)             (* str of length n <> 1 *)
+| SOther.                     (* None, list, ...: neither nb_int nor nb_float *)
+
+Inductive cexc := CTypeError | COverflowError | CValueError.
+Inductive cres (A : Type) := COk (a : A) | CErr (e : cexc).
+Arguments COk {A} a.
+Arguments CErr {A} e.
 
 (* target ctypes of cast_to_integer_or_char *)
 Inductive tkind := KSigned | KUnsigned | KBool | KChar (signed_wchar : bool).
@@ -30,41 +43,51 @@ Definition float_to_int (m e : Z) : Z :=
   if 0 <=? e then m * 2 ^ e else Z.quot m (2 ^ (- e)).
 
 Definition to_u64 (z : Z) : Z := z mod 2 ^ 64.
+Definition nonzero (z : Z) : Z := if z =? 0 then 0 else 1.
 
-(* _my_PyObject_AsBool *)
-Definition as_bool (s : src) : Z :=
+(* the `unsigned long long value` computed by cast_to_integer_or_char before got_value;
+   branch order as in the code: pointer-like cdata, str, bytes, _Bool target, everything else *)
+Definition cast_value (T : cty) (s : src) : cres Z :=
   match s with
-  | SInt v => if v =? 0 then 0 else 1
-  | SFloat m _ => if m =? 0 then 0 else 1
-  | _ => 0   (* not reached: str/bytes/pointers are taken by earlier branches *)
-  end.
-
-(* the `unsigned long long value` computed by cast_to_integer_or_char before got_value *)
-Definition cast_value (T : cty) (s : src) : Z :=
-  match s with
-  | SPtr a => to_u64 a                                  (* (Py_intptr_t)c_data *)
+  | SPtr a => COk (to_u64 a)                                  (* (Py_intptr_t)c_data *)
   | SStr cp =>
       match ckind T with
-      | KChar true => to_u64 ((cp + 2 ^ 31) mod 2 ^ 32 - 2 ^ 31)   (* value = (wchar_t)ordinal *)
-      | _ => cp
+      | KChar true => COk (to_u64 ((cp + 2 ^ 31) mod 2 ^ 32 - 2 ^ 31))   (* value = (wchar_t)ordinal *)
+      | _ => COk cp
       end
-  | SBytes b => b mod 256                               (* (unsigned char)res *)
+  | SStrLen _ => CErr CTypeError                              (* _my_PyUnicode_AsSingleChar32 fails *)
+  | SBytes b => COk (b mod 256)                               (* (unsigned char)res *)
+  | SBytesLen _ => CErr CTypeError                            (* _convert_to_char fails *)
   | SInt v =>
       match ckind T with
-      | KBool => as_bool s
-      | _ => to_u64 v                                   (* PyLong_AsUnsignedLongLongMask *)
+      | KBool => COk (nonzero v)                              (* _PyLong_Sign(ob) != 0 *)
+      | _ => COk (to_u64 v)                                   (* PyLong_AsUnsignedLongLongMask *)
       end
   | SFloat m e =>
       match ckind T with
-      | KBool => as_bool s
-      | _ => to_u64 (float_to_int m e)                  (* nb_int, then the mask *)
+      | KBool => COk (nonzero m)                              (* PyFloat_AS_DOUBLE(ob) != 0.0 *)
+      | _ => COk (to_u64 (float_to_int m e))                  (* nb_int, then the mask *)
       end
+  | SFloatInf =>
+      match ckind T with
+      | KBool => COk 1
+      | _ => CErr COverflowError                              (* float.__int__ of an infinity *)
+      end
+  | SFloatNan =>
+      match ckind T with
+      | KBool => COk 1                                        (* nan != 0.0 *)
+      | _ => CErr CValueError
+      end
+  | SOther => CErr CTypeError
   end.
 
-Definition cast_bytes (T : cty) (s : src) : list Z :=
-  let value := cast_value T s in
-  let value := match ckind T with KBool => if value =? 0 then 0 else 1 | _ => value end in   (* !!value *)
-  write_raw (csize T) value.
+Definition cast_bytes (T : cty) (s : src) : cres (list Z) :=
+  match cast_value T s with
+  | COk value =>
+      let value := match ckind T with KBool => nonzero value | _ => value end in   (* !!value *)
+      COk (write_raw (csize T) value)
+  | CErr e => CErr e
+  end.
 
 (* cdata_int *)
 Definition cdata_int (T : cty) (bs : list Z) : Z :=
@@ -74,18 +97,32 @@ Definition cdata_int (T : cty) (bs : list Z) : Z :=
   | KChar sw => if sw && (csize T =? 4)%nat then read_raw_signed bs else read_raw_unsigned bs
   end.
 
-Definition int_of_cast (T : cty) (s : src) : Z := cdata_int T (cast_bytes T s).
+(* int(ffi.cast(T, x)) *)
+Definition int_of_cast (T : cty) (s : src) : cres Z :=
+  match cast_bytes T s with
+  | COk bs => COk (cdata_int T bs)
+  | CErr e => CErr e
+  end.
 
-(* do_cast, pointer branch with an int source: (char * )(Py_intptr_t)AsUnsignedLongLongMask(v) *)
-Definition cast_int_to_ptr (v : Z) : Z := to_u64 v.
+(* do_cast, pointer branch with an int source: (char * )(Py_intptr_t)AsUnsignedLongLongMask(v),
+   on a platform whose pointers have psize bytes *)
+Definition cast_int_to_ptr (psize : nat) (v : Z) : Z := (to_u64 v) mod 2 ^ (8 * Z.of_nat psize).
 
 (* ---- for the correspondence run: kind code 0 signed, 1 unsigned, 2 bool, 3 char, 4 signed wchar;
-        source code 0 int, 1 float(m,e), 2 bytes, 3 str, 4 pointer *)
+        source code 0 int, 1 float(m,e), 2 bytes, 3 str, 4 pointer, 5 inf, 6 nan, 7 bytes of
+        length a, 8 str of length a, 9 other.  Result (0, value) or (1 TypeError | 2 OverflowError |
+        3 ValueError, 0). *)
 Definition kind_of (k : Z) : tkind :=
   if k =? 0 then KSigned else if k =? 1 then KUnsigned else if k =? 2 then KBool
   else if k =? 3 then KChar false else KChar true.
 Definition src_of (c a b : Z) : src :=
   if c =? 0 then SInt a else if c =? 1 then SFloat a b else if c =? 2 then SBytes a
-  else if c =? 3 then SStr a else SPtr a.
-Definition cast_obs (k size c a b : Z) : Z :=
-  int_of_cast (mk_cty (kind_of k) (Z.to_nat size)) (src_of c a b).
+  else if c =? 3 then SStr a else if c =? 4 then SPtr a else if c =? 5 then SFloatInf
+  else if c =? 6 then SFloatNan else if c =? 7 then SBytesLen a else if c =? 8 then SStrLen a else SOther.
+Definition cast_obs (k size c a b : Z) : Z * Z :=
+  match int_of_cast (mk_cty (kind_of k) (Z.to_nat size)) (src_of c a b) with
+  | COk z => (0, z)
+  | CErr CTypeError => (1, 0)
+  | CErr COverflowError => (2, 0)
+  | CErr CValueError => (3, 0)
+  end.
